@@ -333,7 +333,9 @@ func c08State(rep *report.Report, w *c08World, ops []explore.Op, bodies [][]int,
 		if skip {
 			continue
 		}
-		modes := []string{"commit", "caller-error"}
+		// precommit-*: the transaction is rejected by a failing pre-commit action (alone / followed by a
+		// succeeding one); precommit-ok: two succeeding pre-commit actions, the transaction commits
+		modes := []string{"commit", "caller-error", "precommit-F", "precommit-FS", "precommit-ok"}
 		if bi%25 == 0 {
 			modes = append(modes, "batch")
 		}
@@ -345,6 +347,16 @@ func c08State(rep *report.Report, w *c08World, ops []explore.Op, bodies [][]int,
 			atomic.StoreInt64(&w.txDone, 0)
 			fn := func(ctx boltz.MutateContext) error {
 				ctx.AddCommitAction(func() { atomic.AddInt64(&w.commit, 1) })
+				switch mode {
+				case "precommit-F":
+					ctx.AddPreCommitAction(func(boltz.MutateContext) error { return errBoom })
+				case "precommit-FS":
+					ctx.AddPreCommitAction(func(boltz.MutateContext) error { return errBoom })
+					ctx.AddPreCommitAction(func(boltz.MutateContext) error { return nil })
+				case "precommit-ok":
+					ctx.AddPreCommitAction(func(boltz.MutateContext) error { return nil })
+					ctx.AddPreCommitAction(func(boltz.MutateContext) error { return nil })
+				}
 				for _, o := range body {
 					if err := ops[o].Do(ctx); err != nil {
 						return err
@@ -374,7 +386,7 @@ func c08State(rep *report.Report, w *c08World, ops []explore.Op, bodies [][]int,
 			w.mu.Lock()
 			got := append([]string{}, w.events...)
 			w.mu.Unlock()
-			committed := reject < 0 && mode != "caller-error"
+			committed := reject < 0 && mode != "caller-error" && mode != "precommit-F" && mode != "precommit-FS"
 			if committed != (err == nil) {
 				rep.Violation("C08|outcome|"+bodyName+"|"+mode, fmt.Sprintf("%s: err=%v but the reference says committed=%v", label, err, committed), replay)
 				reopen()
